@@ -26,6 +26,7 @@ func gen(t *rapid.T) peng.Case {
 type residue struct {
 	routers    map[int]int
 	goroutines []string
+	detail     []string
 }
 
 func measure(r *peng.Result) residue {
@@ -35,6 +36,10 @@ func measure(r *peng.Result) residue {
 			if n := client.Node(s); n != nil {
 				if k := gorums.VerifRouterCount(n.RawNode); k > 0 {
 					res.routers[s] = k
+					ids, streaming := gorums.VerifRouterIDs(n.RawNode)
+					for i := range ids {
+						res.detail = append(res.detail, fmt.Sprintf("server %d: message id %d (stream=%v)", s, ids[i], streaming[i]))
+					}
 				}
 			}
 		}
@@ -145,7 +150,7 @@ func run(c peng.Case) vt.Verdict {
 			total += k
 		}
 		return vt.Verdict{OK: false, Key: "C18/routing-entries-remain", History: r.Events, Classes: classes,
-			Msg: fmt.Sprintf("%v after every call ended, every handler returned and a fence RPC per node completed, %d per-call routing entries remain (per server: %v) after %d calls", scen.B, total, final.routers, len(r.Calls))}
+			Msg: fmt.Sprintf("%v after every call ended, every handler returned and a fence RPC per node completed, %d per-call routing entries remain (per server: %v) after %d calls: %s; calls in issue order: %s", scen.B, total, final.routers, len(r.Calls), strings.Join(final.detail, ", "), issueOrder(r))}
 	}
 	if len(final.goroutines) > 0 {
 		k := final.goroutines[0]
@@ -168,4 +173,18 @@ func TestProp(t *testing.T) {
 		Run:          run,
 		TrackCurrent: true,
 	})
+}
+
+// issueOrder lists the calls in the order they were issued (message ids are
+// assigned in roughly that order, starting at 1).
+func issueOrder(r peng.Result) string {
+	var parts []string
+	i := 0
+	for _, e := range r.Events {
+		if e.Kind == "issue" {
+			i++
+			parts = append(parts, fmt.Sprintf("%d:%s(call %d)", i, e.Method, e.Call))
+		}
+	}
+	return strings.Join(parts, " ")
 }
